@@ -3,6 +3,8 @@ import Jap.Lemmas.Heap
 import Jap.Lemmas.HeapOps
 import Jap.Core.HeapHist
 import Jap.Lemmas.HeapHist
+import Jap.Lemmas.HeapSafe
+import Jap.Lemmas.HeapHeld
 import Jap.Gen.HeapSites
 import Jap.Gen.Brackets
 import Jap.Gen.NsTables
@@ -27,7 +29,8 @@ namespace Jap.Props.C08
 open Jap.Heap
 
 /-- the copy policy of the code as it is now -/
-def pol : Policy := policyOfTable Jap.Gen.HeapSites.kindTable Jap.Gen.HeapSites.stripMetaCopiesEmpty
+def pol : Policy :=
+  policyOfTable Jap.Gen.HeapSites.kindTable Jap.Gen.HeapSites.stripMetaCopiesEmpty Jap.Gen.HeapSites.dictSubclassContentKept
 /-- the copy sites of the code as it is now -/
 def cs : Sites := sitesOfTable Jap.Gen.HeapSites.copySites
 def metaKeys : List String := Jap.Gen.metaKeys
@@ -38,12 +41,13 @@ def metaKeys : List String := Jap.Gen.metaKeys
     subclasses are returned as they are. -/
 theorem tie_policy_recreated :
     pol.recreated .ns = true ∧ pol.recreated .dict = true ∧ pol.recreated .list = true ∧ pol.recreated .tuple = true ∧
-    pol.recreated .set = false ∧ pol.recreated .odict = false ∧ pol.recreated .ntuple = false := by decide
+    pol.recreated .dictsub = true ∧ pol.recreated .set = false ∧ pol.recreated .odict = false ∧ pol.recreated .ntuple = false := by decide
 
 /-- the adapter assigns into lists, dicts, namespaces and OrderedDicts in place; tuples, sets and tuple
     subclasses are copied into a fresh list first. -/
 theorem tie_policy_inplace :
     pol.inplace .ns = true ∧ pol.inplace .dict = true ∧ pol.inplace .list = true ∧ pol.inplace .odict = true ∧
+    pol.inplace .dictsub = true ∧
     pol.inplace .tuple = false ∧ pol.inplace .set = false ∧ pol.inplace .ntuple = false := by decide
 
 /-- every public operation copies its configuration argument before anything else is done with it
@@ -60,6 +64,9 @@ theorem tie_copy_sites_parse_args :
 /-- all twelve copy sites, as the history theorems need them -/
 theorem sitesOk : SitesOk cs :=
   ⟨by decide, by decide, by decide, by decide, by decide, by decide, by decide, by decide, by decide, by decide, by decide, by decide⟩
+
+/-- instances of dict subclasses (plain subclass, defaultdict) are copied WITH their entries (fix 2278288, probed) -/
+theorem tie_dict_subclass : pol.subContent = true := by decide
 
 /-- `strip_meta` copies an empty configuration too (fix 3b44d63, probed on the live code) -/
 theorem tie_strip_meta_empty : pol.stripEmpty = true := by decide
@@ -92,7 +99,7 @@ theorem tie_sub_defaults_expanded :
 /-! ## the finding class as an explicit decidable predicate -/
 
 def writableKind : Kind → Bool
-  | .list | .dict | .ns | .odict => true
+  | .list | .dict | .ns | .odict | .dictsub => true
   | _ => false
 
 mutual
@@ -175,6 +182,11 @@ theorem sharedMut_nil : ∀ (t : T), sharesWritable t = false → sharedMut pol 
     | ns =>
       simp only [sharesWritable] at h
       have hr : pol.recreated .ns = true := by decide
+      simp only [sharedMut, hr, ↓reduceIte]
+      exact sharedMutK_nil kids h
+    | dictsub =>
+      simp only [sharesWritable] at h
+      have hr : pol.recreated .dictsub = true := by decide
       simp only [sharedMut, hr, ↓reduceIte]
       exact sharedMutK_nil kids h
 theorem sharedMutK_nil : ∀ (ts : Kids), sharesWritableK ts = false → sharedMutK pol ts = []
@@ -352,6 +364,31 @@ theorem C08_regression_F29_before : 1 ∈ (instantiate polBeforeF29 cs metaKeys 
 
 theorem C08_regression_F29_now : ∀ i ∈ (instantiate pol cs metaKeys (T.ns 1 []) 100).writes, i ≠ 1 := by decide
 
+/-- regression F31: before fix 2278288 `recreate_branches` iterated the instance `__dict__` of a dict-subclass value
+    instead of the mapping: the working copy of `MyDict(a=[…], class_path=…)` came out EMPTY — clone, strip_meta, dump and
+    instantiate_classes silently lost its entries (and the class spec inside it was not instantiated) -/
+def polBeforeF31 : Policy := { pol with subContent := false }
+
+def dictsubWitness : T := T.ns 1 [("d", T.dictsub 2 [("a", T.list 3 [.atom 1]), ("m", T.ns 4 [("class_path", .atom 9)])])]
+
+theorem C08_regression_F31_before :
+    (clone polBeforeF31 dictsubWitness 100).val = T.ns 101 [("d", T.dictsub 100 [])] ∧
+    (instantiate polBeforeF31 cs metaKeys dictsubWitness 100).objs = [] := ⟨by rfl, by decide⟩
+
+theorem C08_regression_F31_now :
+    (clone pol dictsubWitness 100).val = T.ns 103 [("d", T.dictsub 102 [("a", T.list 100 [.atom 1]), ("m", T.ns 101 [("class_path", .atom 9)])])] ∧
+    (instantiate pol cs metaKeys dictsubWitness 100).objs.length = 1 := ⟨by rfl, by decide⟩
+
+/-- in general: a clone has the keys of its original on every level (nothing is lost), for every value -/
+theorem C08_clone_keeps_keys (kd : Kind) (i : Nat) (kids : Kids) (k : Nat) (hr : pol.recreated kd = true) :
+    ∃ j kids', (clone pol (.node kd i kids) k).val = .node kd j kids' ∧ keysOf kids' = keysOf kids := by
+  have hd : (decide (kd = .dictsub) && !pol.subContent) = false := by simp [tie_dict_subclass]
+  refine ⟨(recreateK pol [] kids k).next, (recreateK pol [] kids k).val, ?_, recreateK_keys_nil pol kids k⟩
+  simp only [clone, recreate, hr, hd, Bool.false_eq_true, ↓reduceIte]
+
+/-- dict-subclass values are outside the finding class: fresh copy, nothing shared -/
+example : sharesWritable dictsubWitness = false := by decide
+
 /-! ## declared defaults -/
 
 /-- C08_defaults_unchanged: `get_defaults` hands out copies.  Building the namespace writes nothing of the
@@ -437,7 +474,7 @@ theorem C08_fresh_count (t : T) (k : Nat) :
   simp only [instantiate, instMut, hcs, copyIf, ↓reduceIte, stripMeta, tie_strip_meta_empty, Bool.not_true, Bool.and_false, Bool.false_eq_true]
   rw [h.2.2.2]
   simp only [↓reduceIte]
-  exact specCount_recreate pol t k
+  exact specCount_recreate pol tie_dict_subclass t k
 
 /-! ## the remaining entry points: parse_args(args, namespace), validate(branch=), save, parse_string/path/env -/
 
@@ -579,6 +616,55 @@ theorem C08_history_continues (ops more : List Op) (s : St) (hk : ∀ j ∈ s.id
     simp only [St.shared, List.mem_append]
     exact Or.inr hi
 
+/-! ### … and everything the caller holds at ANY time (results of earlier operations included) -/
+
+theorem polOk : PolOk pol := ⟨by decide, by decide, by decide⟩
+
+theorem mem_idsL : ∀ (ts : List T) (t : T), t ∈ ts → ∀ j ∈ ids t, j ∈ idsL ts
+  | [], _, h => by simp at h
+  | x :: r, t, h => by
+    intro j hj
+    simp only [idsL, List.mem_append]
+    rcases List.mem_cons.mp h with h | h
+    · subst h; exact Or.inl hj
+    · exact Or.inr (mem_idsL r t h j hj)
+
+theorem stHeld_of (s : St) (hk : ∀ j ∈ s.ids, j < s.k) (hs : histSafe s = true) : StHeld pol s := by
+  simp only [histSafe, Bool.and_eq_true, Bool.not_eq_true', List.all_eq_true] at hs
+  refine ⟨?_, ⟨sharedMutK_nil s.defaults hs.2, fun j hj => hk j (by simp only [St.ids, List.mem_append]; exact Or.inr hj)⟩⟩
+  intro t ht
+  exact ⟨sharedMut_nil t (hs.1 t ht), fun j hj => hk j (by simp only [St.ids, List.mem_append]; exact Or.inl (mem_idsL s.env t ht j hj))⟩
+
+/-- the trace is the history: same writes, operation by operation -/
+theorem traceHist_writes : ∀ (ops : List Op) (s : St),
+    (traceHist pol cs metaKeys ops s).map (fun sw => sw.2) = runHist pol cs metaKeys ops s
+  | [], _ => rfl
+  | op :: rest, s => by simp only [traceHist, runHist, List.map_cons, traceHist_writes rest]
+
+/-- C08_history, all held: outside the finding class, every operation of a history of any length writes NOTHING of what
+    the caller holds or the parser declares at the moment the operation starts — the caller's own objects, the declared
+    defaults (the caller's objects among them after set_defaults) and the result of EVERY earlier operation
+    (`sw.1.env` = the initial objects followed by every configuration handed out so far).  The proof carries two
+    invariants through every primitive: `sharedMut = []` (a working copy shares nothing writable) and "all identities
+    below the counter", so that what an operation makes is new for everything that exists. -/
+theorem C08_history_all_held (ops : List Op) (s : St) (hk : ∀ j ∈ s.ids, j < s.k) (hs : histSafe s = true)
+    (hops : ops.all (fun op => op.shapeSafe pol) = true) :
+    ∀ sw ∈ traceHist pol cs metaKeys ops s, ∀ w ∈ sw.2, w ∉ sw.1.ids := by
+  intro sw hsw w hw hmem
+  have h := traceHist_fresh pol polOk cs metaKeys tie_strip_meta_empty sitesOk ops s (stHeld_of s hk hs) hops sw hsw
+  have h1 := h.1.ids_lt w hmem
+  have h2 := h.2 w hw
+  omega
+
+/-- the finding class is closed under the operations: what an operation hands out is again outside it (and older than
+    the counter), so the hypothesis `histSafe` is needed for the INITIAL objects only -/
+theorem C08_results_stay_safe (ops : List Op) (s : St) (hk : ∀ j ∈ s.ids, j < s.k) (hs : histSafe s = true)
+    (hops : ops.all (fun op => op.shapeSafe pol) = true) :
+    ∀ sw ∈ traceHist pol cs metaKeys ops s, (∀ t ∈ sw.1.env, sharedMut pol t = []) ∧ sharedMutK pol sw.1.defaults = [] := by
+  intro sw hsw
+  have h := (traceHist_fresh pol polOk cs metaKeys tie_strip_meta_empty sitesOk ops s (stHeld_of s hk hs) hops sw hsw).1
+  exact ⟨fun t ht => (h.1 t ht).safe, h.2.safe⟩
+
 /- Full statement (FALSE for the code as it is): the same without `histSafe`. -/
 theorem C08_history_full_fails :
     ¬ (∀ (ops : List Op) (s : St), (∀ j ∈ s.ids, j < s.k) → ∀ ws ∈ runHist pol cs metaKeys ops s, ∀ w ∈ ws, w ∉ s.ids) := by
@@ -696,6 +782,10 @@ example : histSafe histStart = true := by decide
 example : (∀ j ∈ histStart.ids, j < histStart.k) := by decide
 example : ((runHist pol cs metaKeys histOps histStart).map List.length).foldl (· + ·) 0 > 100 := by decide
 example : (endState pol cs metaKeys histOps histStart).env.length = 10 := by decide
+example : histOps.all (fun op => op.shapeSafe pol) = true := by decide
+/-- what the caller holds grows along the trace: every later operation is judged against all earlier results -/
+example : (traceHist pol cs metaKeys histOps histStart).map (fun sw => sw.1.env.length) = [3, 3, 4, 4, 5, 6, 6, 7, 8, 9, 9] := by decide
+example : (traceHist pol cs metaKeys histOps histStart).map (fun sw => sw.1.k) ≠ [] := by decide
 example : (parseArgs pol cs histStart.defaults (some sample) (T.list 40 [.atom 1, .atom 2]) 100).writes.length > 20 := by decide
 example : (save pol cs metaKeys true sample 100).writes.length > (dump pol cs metaKeys sample 100).writes.length := by decide
 example : (validateBranch pol cs "g" sample 100).writes.length = (validate pol cs sample 100).writes.length + 1 := by decide
